@@ -499,6 +499,7 @@ std::vector<std::string> Patterns(int n, bool reduced) {
     if (reduced) return {"VV", "VE", "EV", "EE", "XX", "XV"};
     return {"VV", "VE", "VX", "EV", "EE", "EX", "XV", "XE", "XX"};
   }
+  if (n >= 4) return {"EV" + std::string(static_cast<std::size_t>(n) - 2, 'V')};  // five fibers: one pattern
   if (reduced) return {"VVV", "EVE", "EEX"};
   return {"VVV", "VVE", "VEV", "VEE", "EVV", "EVE", "EEV", "EEE", "XEV", "EXX"};
 }
@@ -526,6 +527,34 @@ void Add(const std::string& kind, yaclib::FailPolicy f, const std::string& form,
     gScenarios.push_back(sc);
   }
 }
+
+
+// shared inputs of TWO value types in one variadic unordered combinator: the callback slot of a shared input is its rank
+// among ALL shared inputs (`translate_index_v`), whatever their types; one input has another subscriber already
+template <typename... Ins, typename Call>
+void AddMixedShared(const std::string& kind, yaclib::FailPolicy f, const std::string& name, const std::string& types, Call) {
+  constexpr std::size_t n = sizeof...(Ins);
+  for (std::size_t sub = 0; sub < n; ++sub) {
+    std::string shape(n, 's');
+    shape[sub] = 'p';
+    std::string api = name + "(";
+    for (std::size_t i = 0; i < n; ++i) api += (i ? "," : "") + std::string(1, shape[i]) + std::string(1, types[i]);
+    api += ")";
+    Add(kind, f, "static", api, shape, [](const Scenario& sc) {
+      RunWith<Ins...>(sc, [](auto&... x) { Observe(Call{}(std::move(x.f)...)); });
+    }, true);
+  }
+}
+template <yaclib::FailPolicy F>
+struct CallJoin {
+  template <typename... Fs>
+  auto operator()(Fs&&... fs) const { return yaclib::Join<F>(std::forward<Fs>(fs)...); }
+};
+template <yaclib::FailPolicy F>
+struct CallAny {
+  template <typename... Fs>
+  auto operator()(Fs&&... fs) const { return yaclib::WhenAny<F>(std::forward<Fs>(fs)...); }
+};
 
 // ---- WhenAll / Join
 template <yaclib::FailPolicy F, bool B = kBuildAll>
@@ -569,6 +598,9 @@ void AddAllFor() {
     Add("join", F, "static", "Join(f,f)", "sd", [](const Scenario& sc) {
       RunWith<S0, S0>(sc, [](auto& a, auto& b) { Observe(yaclib::Join<F>(std::move(a.f), std::move(b.f))); });
     }, true);
+    AddMixedShared<S0, S1, S1>("join", F, "Join", "011", CallJoin<F>{});
+    AddMixedShared<S1, S0, S1>("join", F, "Join", "101", CallJoin<F>{});
+    AddMixedShared<S0, S1, S1, S0>("join", F, "Join", "0110", CallJoin<F>{});
     // vector form, dynamic
     auto dyn = [](const Scenario& sc) {
       RunDyn<U0>(sc, [](auto& fs) { Observe(yaclib::WhenAll<F>(fs.begin(), fs.size())); });
@@ -659,6 +691,9 @@ void AddAnyFor() {
     Add("any", F, "static", "WhenAny(f,f)", "sd", [](const Scenario& sc) {
       RunWith<S0, S0>(sc, [](auto& a, auto& b) { Observe(yaclib::WhenAny<F>(std::move(a.f), std::move(b.f))); });
     }, true);
+    AddMixedShared<S0, S1, S1>("any", F, "WhenAny", "011", CallAny<F>{});
+    AddMixedShared<S1, S0, S1>("any", F, "WhenAny", "101", CallAny<F>{});
+    AddMixedShared<S0, S1, S1, S0>("any", F, "WhenAny", "0110", CallAny<F>{});
     auto dyn = [](const Scenario& sc) {
       RunDyn<U0>(sc, [](auto& fs) { Observe(yaclib::WhenAny<F>(fs.begin(), fs.size())); });
     };
